@@ -65,3 +65,38 @@ Fixpoint check_from (w : world) (steps : list sobs) (allder : bool) : bool :=
   end.
 
 Definition check_case (c : case) : bool := check_from (init (k_brokers c) []) (k_steps c) true.
+
+(* ---------- second stream: brokers WITH their real snapshot watchers ----------
+   Refreshes happen asynchronously there.  The harness linearises what it saw: a
+   broker operation whose outcome shows that the broker had (not) loaded a given
+   earlier write gets a BRefresh placed right after that write; at every quiescence
+   point (all brokers polled equal to etcd) the missing refreshes are placed after the
+   last write — the WatchDeliver obligation — and all local copies are compared.
+   Between quiescence points only result codes and the etcd snapshot are compared. *)
+Record wobs := mkWObs {
+  wo_events : list event;
+  wo_code : Z;
+  wo_check_etcd : bool;
+  wo_etcd : option snap;
+  wo_check_locals : bool;
+  wo_locals : list snap
+}.
+
+Record wcase := mkWCase { wk_brokers : nat; wk_steps : list wobs }.
+
+Fixpoint check_wfrom (w : world) (steps : list wobs) (allder : bool) : bool :=
+  match steps with
+  | [] => negb allder || acks_holdb w
+  | o :: steps' =>
+      match run_group w (wo_events o) 0 true with
+      | Some (w', code, der) =>
+          (code =? wo_code o) &&
+          (negb (wo_check_etcd o) || osnap_eqb (w_etcd w') (wo_etcd o)) &&
+          (negb (wo_check_locals o) || list_eqb snap_eqb (w_local w') (wo_locals o)) &&
+          (negb (allder && der) || acks_holdb w') &&
+          check_wfrom w' steps' (allder && der)
+      | None => false
+      end
+  end.
+
+Definition check_wcase (c : wcase) : bool := check_wfrom (init (wk_brokers c) []) (wk_steps c) true.
